@@ -52,35 +52,46 @@ def run(rep):
 
 # ------------------------------------------------------------------ O15.1
 def _generator_is_fresh(rep):
-    """`_next_edge_id_for_rule` returns an id that is not in self.edges."""
+    """`_next_edge_id_for_rule` returns an id that is not in self.edges: on every path to the return the last thing that happened to the
+    returned id is a membership test against self.edges that came out negative (a path rule on the function's flow graph)."""
+    from ..cfg import ENTRY
     fi = rep.f(HG, CLS + "_next_edge_id_for_rule")
     rets = returns_of(fi.node)
     if len(rets) != 1:
         return fi, None, "generator has several returns"
-    rtxt = norm(rets[0].value)
-    loops = [n for n in walk_local(fi.node) if isinstance(n, ast.While)]
-    for lp in loops:
-        t = lp.test
-        if isinstance(t, ast.Compare) and len(t.ops) == 1 and isinstance(t.ops[0], ast.In) \
-                and norm(t.comparators[0]) == "self.edges" and norm(t.left) == rtxt and not lp.orelse:
-            # no break inside, and nothing after the loop re-binds the names the id is built from
-            if any(isinstance(n, ast.Break) for n in walk_local(lp)):
-                return fi, False, "the search loop can be left by `break` with a used id"
-            names = {n.id for n in ast.walk(t.left) if isinstance(n, ast.Name)}
-            after = False
-            for st in fi.node.body:
-                if st is lp:
-                    after = True
-                    continue
-                if after:
-                    for n in ast.walk(st):
-                        if isinstance(n, (ast.Assign, ast.AugAssign)):
-                            tg = n.targets if isinstance(n, ast.Assign) else [n.target]
-                            if any(isinstance(x, ast.Name) and x.id in names for x in tg):
-                                return fi, False, "the id is changed after the freshness loop"
-            return fi, True, f"while {norm(t)}: ... ; return {rtxt}"
-    # alternative idiom: if <id> in self.edges: raise
-    return fi, False, "the generated id is never checked against self.edges"
+    defs = local_defs(fi.node)
+    cfg = CFG(fi.node)
+
+    def res(e):
+        return norm(origin(defs, e))
+    rtxt = res(rets[0].value)
+    tests = {}
+    for st in cfg.stmts():
+        if isinstance(st, (ast.If, ast.While)):
+            t = st.test
+            if isinstance(t, ast.Compare) and len(t.ops) == 1 and isinstance(t.ops[0], (ast.In, ast.NotIn)) and norm(t.comparators[0]) == "self.edges" and res(t.left) == rtxt:
+                tests[st] = isinstance(t.ops[0], ast.NotIn)  # the branch on which the id is known to be unused
+    if not tests:
+        return fi, False, "the generated id is never checked against self.edges"
+    through = dict(tests)
+    for st in cfg.stmts():
+        # `for n in itertools.count(..)` never runs out: its exhaustion edge does not exist
+        if isinstance(st, ast.For) and isinstance(st.iter, ast.Call) and norm(st.iter.func) in ("itertools.count", "count") and not st.orelse:
+            through[st] = False
+    names = {n.id for e in (rets[0].value, origin(defs, rets[0].value)) for n in ast.walk(e) if isinstance(n, ast.Name)}
+    if not cfg.all_paths_pass(ENTRY, rets[0], through.keys(), through):
+        return fi, False, "a path reaches the return without a negative membership test of the returned id (e.g. the search loop is left by `break` with a used id)"
+    for st in cfg.stmts():
+        tg = []
+        if isinstance(st, ast.Assign):
+            tg = st.targets
+        elif isinstance(st, (ast.AugAssign, ast.AnnAssign, ast.For)):
+            tg = [st.target]
+        if any(isinstance(x, ast.Name) and isinstance(x.ctx, ast.Store) and x.id in names for t_ in tg for x in ast.walk(t_)):
+            if not cfg.all_paths_pass(st, rets[0], through.keys(), through):
+                return fi, False, f"the id is changed after the freshness test ({norm(st)[:40]})"
+    t0 = next(iter(tests))
+    return fi, True, f"{norm(t0.test)} decides every path to `return {norm(rets[0].value)}`"
 
 
 def guarded_write(rep):
@@ -231,7 +242,7 @@ def pairing_remove(rep):
 
 
 def prune_blocks(rep):
-    from ..facts import conjunct_nodes
+    from ..facts import guard_atoms
     n_blocks = 0
     for q in ("remove_rxn", "remove_species"):
         fi = rep.f(HG, CLS + q)
@@ -240,17 +251,7 @@ def prune_blocks(rep):
             n_blocks += 1
             key = norm(d.args[0])
             # the conditions under which the discard runs (enclosing tests and preceding guard clauses), as a flat conjunction
-            conds = []
-            for t, s_ in guards_of(pm, d, fi.node):
-                if s_:
-                    conds += [(c_, True) for c_ in conjunct_nodes(t)]
-                else:
-                    conds.append((t, False))
-            flat = []
-            for c_, s_ in conds:
-                while isinstance(c_, ast.UnaryOp) and isinstance(c_.op, ast.Not):
-                    c_, s_ = c_.operand, not s_
-                flat.append((norm(c_).replace(" ", ""), s_))
+            flat = [(norm(c_).replace(" ", ""), s_) for c_, s_ in guard_atoms(guards_of(pm, d, fi.node))]
             need_c = {(f"self.species_to_in_edges.get({key})", False), (f"self.species_to_out_edges.get({key})", False)}
             extra = [f for f in flat if f not in need_c and f[0] not in ("prune_orphans",) and not f[0].endswith("notinself.edges") and not f[0].endswith("notinself.species")
                      and not (f[0].endswith("inself.edges") and f[1]) and not (f[0].endswith("inself.species") and f[1])]
@@ -357,7 +358,9 @@ def merge_copy(rep):
         txt = norm(c)
         lps_ = enclosing_loops(parent_map(fi.node), c, fi.node)
         ev = norm(lps_[0].target) if lps_ else "?"
-        ok = len(c.args) >= 2 and f"{ev}.reactants" in norm(c.args[0]) and f"{ev}.products" in norm(c.args[1]) and "products" not in norm(c.args[0]) and "reactants" not in norm(c.args[1]) \
+        ldefs = local_defs(lps_[0]) if lps_ else {}
+        a0, a1 = (norm(origin(ldefs, c.args[0])), norm(origin(ldefs, c.args[1]))) if len(c.args) >= 2 else ("", "")
+        ok = len(c.args) >= 2 and f"{ev}.reactants" in a0 and f"{ev}.products" in a1 and f"{ev}.products" not in a0 and f"{ev}.reactants" not in a1 \
             and bool(lps_) and norm(lps_[0].iter) == f"{fi.params[1]}.edge_list()"
         rep.ob("O15.4", "SHAPE", fi, ok, c.func, "merge keeps reactants as reactants and products as products", node=c)
         from ..core import kwarg
@@ -377,24 +380,77 @@ def merge_copy(rep):
     rep.ob("O15.4", "SHAPE", cp, ok, rets[0] if rets else "return", "copy() is a deep copy (unaffected by later edits of the original)")
 
 
+def _coeff_sign(stmts, c, pm):
+    """sign with which the variable `c` is accumulated by the statements: `x[..] -= int(c)`, `x[k] = x.get(k, 0) + int(c)`; None = not decided"""
+    from ..absval import linform
+    signs = set()
+    for st in stmts:
+        for n in ast.walk(st):
+            val = flip = None
+            if isinstance(n, ast.AugAssign) and isinstance(n.op, (ast.Add, ast.Sub)):
+                val, flip = n.value, (-1 if isinstance(n.op, ast.Sub) else 1)
+            elif isinstance(n, ast.Assign) and isinstance(n.value, ast.BinOp):
+                val, flip = n.value, 1
+            if val is None or not any(isinstance(x, ast.Name) and x.id == c for x in ast.walk(val)):
+                continue
+            try:
+                lf = linform(val, lambda e: norm(e) if isinstance(e, (ast.Name, ast.Subscript, ast.Attribute)) or
+                             (isinstance(e, ast.Call) and not (isinstance(e.func, ast.Name) and e.func.id in ("int", "float", "round"))) else None)
+            except Undecided:
+                return None
+            k = lf.get(c, 0) * flip
+            signs.add(1 if k > 0 else (-1 if k < 0 else 0))
+    return signs.pop() if len(signs) == 1 else None
+
+
 def incidence(rep):
+    """every iteration over `<edge>.reactants.items()` / `.products.items()` feeds the coefficient into the matrix with sign -1 / +1;
+    directly (`mat[..] -= int(c)`) or through a list of signed terms that is added up afterwards"""
+    from ..absval import linform
+    from ..facts import iterations as _its
     fi = rep.f(HG, CLS + "incidence_matrix")
+    pm = parent_map(fi.node)
     n = 0
-    for lp in [x for x in walk_local(fi.node) if isinstance(x, ast.For)]:
+    sites = [x for x in walk_local(fi.node) if isinstance(x, (ast.For, ast.comprehension))]
+    for lp in sites:
         it = norm(lp.iter)
-        side = "reactants" if ".reactants.items()" in it else ("products" if ".products.items()" in it else None)
-        if side is None:
+        side = "reactants" if it.endswith(".reactants.items()") else ("products" if it.endswith(".products.items()") else None)
+        if side is None or not (isinstance(lp.target, ast.Tuple) and len(lp.target.elts) == 2 and isinstance(lp.target.elts[1], ast.Name)):
             continue
         n += 1
+        c = lp.target.elts[1].id
         sign = None
-        for st in lp.body:
-            if isinstance(st, ast.AugAssign):
-                sign = -1 if isinstance(st.op, ast.Sub) else (1 if isinstance(st.op, ast.Add) else None)
-            elif isinstance(st, ast.Assign) and isinstance(st.value, ast.BinOp):
-                sign = -1 if isinstance(st.value.op, ast.Sub) else (1 if isinstance(st.value.op, ast.Add) else None)
+        construct = lp.iter
+        if isinstance(lp, ast.For):
+            sign = _coeff_sign(lp.body, c, pm)
+            construct = lp.body[0] if lp.body else lp
+        else:
+            comp = pm.get(lp)
+            # [(label, <+-int(c)>) for label, c in side.items()]  collected in a list that is summed up later: sign = sign in the term * sign at the sum
+            if isinstance(comp, (ast.ListComp, ast.GeneratorExp)) and isinstance(comp.elt, ast.Tuple):
+                pos = [i for i, e in enumerate(comp.elt.elts) if any(isinstance(x, ast.Name) and x.id == c for x in ast.walk(e))]
+                holder = pm.get(comp)
+                var = None
+                if isinstance(holder, ast.Assign) and isinstance(holder.targets[0], ast.Name):
+                    var = holder.targets[0].id
+                elif isinstance(holder, ast.AugAssign) and isinstance(holder.op, ast.Add) and isinstance(holder.target, ast.Name):
+                    var = holder.target.id
+                elif isinstance(holder, ast.Call) and isinstance(holder.func, ast.Attribute) and holder.func.attr == "extend" and isinstance(holder.func.value, ast.Name):
+                    var = holder.func.value.id
+                if len(pos) == 1 and var:
+                    try:
+                        s1 = linform(comp.elt.elts[pos[0]], lambda e: e.id if isinstance(e, ast.Name) else None).get(c, 0)
+                    except Undecided:
+                        s1 = 0
+                    users = [l for l in walk_local(fi.node) if isinstance(l, ast.For) and isinstance(l.iter, ast.Name) and l.iter.id == var
+                             and isinstance(l.target, ast.Tuple) and len(l.target.elts) == len(comp.elt.elts) and isinstance(l.target.elts[pos[0]], ast.Name)]
+                    if s1 and len(users) == 1:
+                        s2 = _coeff_sign(users[0].body, users[0].target.elts[pos[0]].id, pm)
+                        sign = None if s2 is None else (1 if s1 * s2 > 0 else (-1 if s1 * s2 < 0 else 0))
+                construct = comp
         want = -1 if side == "reactants" else 1
-        rep.ob("O15.4", "R13", fi, sign == want, lp.body[0] if lp.body else lp, f"{side} enter the incidence matrix with sign {want:+d} (products minus reactants) in both the sparse and the dense branch",
-               {"sign": sign}, node=lp)
+        rep.ob("O15.4", "R13", fi, None if sign is None else sign == want, construct,
+               f"{side} enter the incidence matrix with sign {want:+d} (products minus reactants) in both the sparse and the dense branch", {"sign": sign}, node=lp if isinstance(lp, ast.For) else pm.get(lp))
     rep.need("R13", n, 4, "reactant/product loops in incidence_matrix (2 sparse + 2 dense)")
 
 
